@@ -43,6 +43,12 @@ impl SystemCommandSetup
     }
 }
 
+#[cfg(bevy_cobweb_verif)]
+impl SystemCommandSetup
+{
+    pub(crate) fn verif_ticket(&self) -> u64 { self.ticket }
+}
+
 impl Default for SystemCommandSetup
 {
     fn default() -> Self
@@ -80,6 +86,8 @@ pub(crate) fn syscommand_runner(
 )
 {
     let idx = **world.resource::<SyscommandCounter>();
+    #[cfg(bevy_cobweb_verif)]
+    crate::react::verif::emit(crate::react::verif::RunnerEvent::Enter{ sys: *command, ticket: setup.verif_ticket(), idx });
 
     // cleanup
     garbage_collect_entities(world);
@@ -90,14 +98,22 @@ pub(crate) fn syscommand_runner(
     let Ok(mut entity_mut) = world.get_entity_mut(*command)
     else
     {
+        #[cfg(bevy_cobweb_verif)]
+        crate::react::verif::emit(crate::react::verif::RunnerEvent::Abort{ sys: *command, ticket: setup.verif_ticket(), why: "dead" });
         cleanup_on_abort(world, setup, cleanup);
+        #[cfg(bevy_cobweb_verif)]
+        crate::react::verif::emit(crate::react::verif::RunnerEvent::Exit{ sys: *command, ticket: setup.verif_ticket() });
         return
     };
     let Some(mut system_command) = entity_mut.get_mut::<SystemCommandStorage>()
     else
     {
         tracing::error!(?command, "system command component is missing on extract");
+        #[cfg(bevy_cobweb_verif)]
+        crate::react::verif::emit(crate::react::verif::RunnerEvent::Abort{ sys: *command, ticket: setup.verif_ticket(), why: "nostorage" });
         cleanup_on_abort(world, setup, cleanup);
+        #[cfg(bevy_cobweb_verif)]
+        crate::react::verif::emit(crate::react::verif::RunnerEvent::Exit{ sys: *command, ticket: setup.verif_ticket() });
         return
     };
     let Some(mut callback) = system_command.take()
@@ -106,19 +122,27 @@ pub(crate) fn syscommand_runner(
         // Cache the callback unless at the bottom of the pile.
         if idx == 0 {
             tracing::warn!(?command, "system command missing");
+            #[cfg(bevy_cobweb_verif)]
+            crate::react::verif::emit(crate::react::verif::RunnerEvent::Abort{ sys: *command, ticket: setup.verif_ticket(), why: "rootmissing" });
             cleanup_on_abort(world, setup, cleanup);
         } else {
             tracing::debug!(?command, "deferring suspected recursive system command");
+            #[cfg(bevy_cobweb_verif)]
+            crate::react::verif::emit(crate::react::verif::RunnerEvent::Postpone{ sys: *command, ticket: setup.verif_ticket() });
             world.resource_mut::<CobwebCommandQueue<BufferedSyscommand>>().push(
                 BufferedSyscommand{ command, setup, cleanup }
             );
         }
 
+        #[cfg(bevy_cobweb_verif)]
+        crate::react::verif::emit(crate::react::verif::RunnerEvent::Exit{ sys: *command, ticket: setup.verif_ticket() });
         return
     };
 
     // run the system command
     **world.resource_mut::<SyscommandCounter>() += 1;
+    #[cfg(bevy_cobweb_verif)]
+    crate::react::verif::emit(crate::react::verif::RunnerEvent::Start{ sys: *command, ticket: setup.verif_ticket() });
     setup.run(world);
     callback.run(world, cleanup);
 
@@ -132,11 +156,15 @@ pub(crate) fn syscommand_runner(
         if let Some(mut system_command) = entity_mut.get_mut::<SystemCommandStorage>()
         {
             system_command.insert(callback);
+            #[cfg(bevy_cobweb_verif)]
+            crate::react::verif::emit(crate::react::verif::RunnerEvent::End{ sys: *command, ticket: setup.verif_ticket(), reinserted: true });
         }
         else
         {
             std::mem::drop(callback);
             entity_mut.despawn_recursive();
+            #[cfg(bevy_cobweb_verif)]
+            crate::react::verif::emit(crate::react::verif::RunnerEvent::End{ sys: *command, ticket: setup.verif_ticket(), reinserted: false });
             tracing::error!(?command, "system command component is missing on insert");
 
             // In case dropping the callback caused entities to be garbage collected.
@@ -146,6 +174,8 @@ pub(crate) fn syscommand_runner(
     else
     {
         std::mem::drop(callback);
+        #[cfg(bevy_cobweb_verif)]
+        crate::react::verif::emit(crate::react::verif::RunnerEvent::End{ sys: *command, ticket: setup.verif_ticket(), reinserted: false });
 
         // In case dropping the callback caused entities to be garbage collected.
         garbage_collect_entities(world);
@@ -179,12 +209,16 @@ pub(crate) fn syscommand_runner(
     {
         while let Some(to_discard) = world.resource_mut::<CobwebCommandQueue<BufferedSyscommand>>().pop_front() {
             tracing::warn!(?to_discard.command, "failed to run missing system command");
+            #[cfg(bevy_cobweb_verif)]
+            crate::react::verif::emit(crate::react::verif::RunnerEvent::Discard{ sys: *to_discard.command, ticket: to_discard.setup.verif_ticket() });
             cleanup_on_abort(world, to_discard.setup, to_discard.cleanup);
         }
 
         // Reset the counter since we are exiting the system command tree.
         **world.resource_mut::<SyscommandCounter>() = 0;
     }
+    #[cfg(bevy_cobweb_verif)]
+    crate::react::verif::emit(crate::react::verif::RunnerEvent::Exit{ sys: *command, ticket: setup.verif_ticket() });
 }
 
 //-------------------------------------------------------------------------------------------------------------------
